@@ -74,8 +74,6 @@ Theorem readLitDistLens_spec : False -> forall s hdist hlit s' e,
 Proof.
   intros FF s hdist hlit s' e Hrun Hd Hl Hb Hlen Hclc Hh Hlc Hdc Hex.
   unfold readLitDistLens in Hrun. cbv zeta in Hrun.
-  assert (Hfuel : Z.of_nat small_fuel = 1024%Z) by reflexivity.
-  set (fuel := small_fuel) in *. clearbody fuel.
   rewrite Hh, Hlc, Hdc, Hex in Hrun.
 exfalso; exact FF.
 Time Qed.
